@@ -65,13 +65,17 @@ let () =
   let ltab : (string, (n * string) list) Hashtbl.t = Hashtbl.create 64 in
   let ptab : (string, n list) Hashtbl.t = Hashtbl.create 64 in
   let in_base = ref false in
+  (* payloads whose links were defined by a line of the current block *)
+  let fresh : string list ref = ref [] in
   let reset () = Hashtbl.reset slots; Hashtbl.reset htab; Hashtbl.reset ltab; Hashtbl.reset ptab in
-  let base = ref (false, 0, Hashtbl.copy slots, Hashtbl.copy ptab) in
+  let base = ref (false, 0, Hashtbl.copy slots, Hashtbl.copy ptab, Hashtbl.copy htab, Hashtbl.copy ltab) in
   let restore () =
-    let (tp, p, sl, pt) = !base in
+    let (tp, p, sl, pt, ht, lt) = !base in
     two_phase := tp; prim := p;
     Hashtbl.reset slots; Hashtbl.iter (Hashtbl.replace slots) sl;
-    Hashtbl.reset ptab; Hashtbl.iter (Hashtbl.replace ptab) pt in
+    Hashtbl.reset ptab; Hashtbl.iter (Hashtbl.replace ptab) pt;
+    Hashtbl.reset htab; Hashtbl.iter (Hashtbl.replace htab) ht;
+    Hashtbl.reset ltab; Hashtbl.iter (Hashtbl.replace ltab) lt in
   (* the payload lists handed out by `img` are the ones stored at P/S time: find their hex text by
      physical equality before falling back to printing them *)
   let phys_base : (n list * string) list ref = ref [] in
@@ -88,24 +92,26 @@ let () =
     while true do
       let line = input_line stdin in
       match String.split_on_char ' ' line with
-      | "I" :: rest -> reset (); in_base := true; phys_base := []; phys_delta := []; id := String.concat " " rest
-      | "D" :: rest -> restore (); in_base := false; phys_delta := []; id := String.concat " " rest
+      | "I" :: rest -> reset (); in_base := true; fresh := []; phys_base := []; phys_delta := []; id := String.concat " " rest
+      | "D" :: rest -> restore (); in_base := false; fresh := []; phys_delta := []; id := String.concat " " rest
       | ["X"; ptr] -> Hashtbl.remove ptab (hex_of_n (n_of_hex ptr))
       | ["G"; tp; p] -> two_phase := (tp = "1"); prim := int_of_string p
       | ["S"; i; payload; stored; hsum; txid; links] ->
         Hashtbl.replace htab payload hsum;
-        Hashtbl.replace ltab payload (parse_links links);
+        if not (List.mem payload !fresh) then begin
+          Hashtbl.replace ltab payload (parse_links links); fresh := payload :: !fresh end;
         let pl = bytes_of_hex payload in
         remember pl payload;
         Hashtbl.replace slots (int_of_string i) { s_payload = pl; s_sum = stored; s_txid = n_of_hex txid }
       | ["P"; ptr; payload; hsum; links] ->
         Hashtbl.replace htab payload hsum;
-        Hashtbl.replace ltab payload (parse_links links);
+        if not (List.mem payload !fresh) then begin
+          Hashtbl.replace ltab payload (parse_links links); fresh := payload :: !fresh end;
         let pl = bytes_of_hex payload in
         remember pl payload;
         Hashtbl.replace ptab (hex_of_n (n_of_hex ptr)) pl
       | ["E"] ->
-        if !in_base then base := (!two_phase, !prim, Hashtbl.copy slots, Hashtbl.copy ptab);
+        if !in_base then base := (!two_phase, !prim, Hashtbl.copy slots, Hashtbl.copy ptab, Hashtbl.copy htab, Hashtbl.copy ltab);
         let x = { two_phase = !two_phase; primary = Hashtbl.find slots !prim; secondary = Hashtbl.find slots (1 - !prim); pages = img } in
         let v = recover sum_eqb h parse walk_depth x in
         let which s = if s == x.primary then string_of_int !prim else string_of_int (1 - !prim) in
